@@ -52,7 +52,7 @@ def run(ctx):
         gen_clients["c5"] = "rtsp"
     mc_steps = ctx.pick(5, 6)
     walk_len = ctx.pick(14, 20)
-    walk_cap = ctx.pick(36, None)
+    walk_cap = ctx.pick(int(os.environ.get("VERIF_CONN_CAP", "90")), None)
 
     # ---- 1. MC (in the background while walks are generated and replayed)
     def do_mc():
@@ -67,7 +67,12 @@ def run(ctx):
     vf.tlc(ctx, "ConnHooks", cfg, workers=1, timeout=900, extra=["-dump", "dot,actionlabels", dot])
     g = walk.load(dot)
     os.remove(dot)
-    ws, ecov, etot = walk.edge_cover(g, maxlen=walk_len, seed=ctx.seed, limit=walk_cap)
+    # the whole cover is computed; a cap replays a seeded sample of it (its first walks are the shallow ones)
+    ws, ecov, etot = walk.edge_cover(g, maxlen=walk_len, seed=ctx.seed, limit=None)
+    if walk_cap is not None and len(ws) > walk_cap:
+        import random
+        ws = random.Random(ctx.seed * 7919 + len(ws)).sample(ws, walk_cap)
+        ecov = len({(w[k - 1][1] if k else "init", w[k][0], w[k][1]) for w in ws for k in range(len(w))})
     runs = []
     for w in ws:
         inputs = []
